@@ -474,6 +474,16 @@ def run_impl(case):
                 open(fx, "w").write(gt)
                 rr, _e = _try(lambda: TetMesh.read_gmsh(fx))
                 recs.append(["gmsh", gt, None if rr is None else [np.asarray(rr.v, dtype=float).tolist(), np.asarray(rr.t).tolist()]])
+            # the same mesh with an extra node in front that no tetrahedron uses (a geometry point kept by the mesher): node numbers
+            # stay 1-based, the described mesh has the extra vertex 0 and all element indices one higher
+            vx = [[9.5, -3.25, 0.125]] + [list(p_) for p_ in case["v"]]
+            tx = [[i + 1 for i in r_] for r_ in case["t"]]
+            txt_x = print_gmsh(vx, tx, case["ntags"])
+            fx = os.path.join(d, "recx.msh")
+            open(fx, "w").write(txt_x)
+            rr, _e = _try(lambda: TetMesh.read_gmsh(fx))
+            recs.append(["gmsh", txt_x, None if rr is None else [np.asarray(rr.v, dtype=float).tolist(), np.asarray(rr.t).tolist()]])
+            out["gmsh_unused_first"] = _e or _same_mesh(rr, np.array(vx, dtype=np.float32), np.array(tx))
             out["files"] = recs
             open(f2, "w").write(txt)
             r, err = _try(lambda: TetMesh.read_gmsh(f2))
@@ -629,6 +639,8 @@ def oracle(case, out):
     if ct == "tet":
         if out.get("gmsh") != "ok":
             bad("gmsh_file_loads_to_described_mesh_zero_based", str(out.get("gmsh")), f"tags{case['ntags']}")
+        if out.get("gmsh_unused_first", "ok") != "ok":
+            bad("gmsh_file_loads_to_described_mesh_zero_based", "first node unused: " + str(out.get("gmsh_unused_first")), f"tags{case['ntags']}")
     if ct == "ev" and out.get("ev") != "ok":
         wc = None
         d = case["d"]
